@@ -38,6 +38,12 @@ fn curated() -> Vec<(Vec<Line>, Term)> {
     ];
     // long non-ASCII names: runs of > 10 bytes with the high bit set inside the string section
     v.push(vec![class("com.example.\u{65e5}\u{672c}\u{8a9e}\u{306e}\u{30af}\u{30e9}\u{30b9}\u{540d}", "a"), m(Some((1, 2)), Some("\u{e9}\u{e8}\u{ea}\u{eb}\u{e0}\u{e2}\u{e4}.K"), "\u{65b9}\u{6cd5}\u{540d}\u{524d}\u{3067}\u{3059}", "\u{578b}\u{578b}\u{578b}\u{578b}", Orig::SE(3, 4), "m")]);
+    // synthetic-file rule on class-name shapes ('$' before '.', leading / trailing '$' or '.')
+    for (i, (l, _)) in crate::families::unicode_family().files.iter().rev().enumerate() {
+        if i < 31 && l.iter().any(|x| matches!(x, Line::SourceFile("R8$$SyntheticClass"))) {
+            v.push(l.clone());
+        }
+    }
     // 1..5 classes with 0..2 members each (odd/even counts so that every padding site is / is not exercised)
     for nc in 1..=5usize {
         for nm in 0..=2usize {
@@ -153,8 +159,15 @@ fn c11_visit(lines: &[Line], term: Term, acc: &mut Acc) {
         c["observed"] = json!(got);
         c
     };
-    // (1) crash points: every strict prefix
+    // (1) crash points: every strict prefix (files above 100 kB: the last 4096 prefixes, 8 bytes around every
+    //     section boundary and every 65536th length - stated in the evidence)
+    let big = full.len() > 100_000;
+    let lay = layout(&h0);
+    let marks = [HEADER_SIZE as u64, lay.classes_at, lay.members_at, lay.bp_at, lay.strings_at];
     for n in 0..full.len() {
+        if big && !(n + 4096 >= full.len() || n % 65536 == 0 || marks.iter().any(|m| (n as u64 + 8 >= *m) && (n as u64) <= *m + 8)) {
+            continue;
+        }
         acc.transitions += 1;
         acc.observations += 1;
         let r = guarded(|| {
@@ -277,13 +290,17 @@ pub fn run_c11(tier: Tier) -> i32 {
             bases.push(f.clone());
         }
     }
+    // string sections beyond 2^24 and 2^25 bytes (where a 32-bit float can no longer tell adjacent lengths apart)
+    for l in [(1usize << 24) + 5, (1 << 25) + 3] {
+        bases.push((vec![class(leak(&"n".repeat(l)), "a"), method(None, None, "p", "", Orig::None, "m")], Term::Lf));
+    }
     let nb = bases.len();
     let mut acc = par_run(&bases, &budget, |(l, tm), acc, _| c11_visit(l, *tm, acc));
     let meta = RunMeta {
         prop: "C11",
         tier,
         level: "fault_enumeration",
-        rule: "base files = caches written from every curated mapping, every MS-B history (depth <= 3 quick / 4 thorough), MS-C and small MS-D files, the long-name files (127..1025-byte names) and the character-class family; faults = every strict prefix length 0..len-1 (crash points) and every single-field edit of the header (5 magic values, 8 versions incl. values whose low or high half is 1, 6 values per count, every single-bit flip of all six fields) plus 4 two-edit precedence scripts; oracle = rejection with the error kind the documented layout implies (computed by the independent decoder), or acceptance with answers identical to the full file. evaluations = faulted buffers parsed; distinct = distinct (fault class, error kind) pairs".into(),
+        rule: "base files = caches written from every curated mapping, every MS-B history (depth <= 3 quick / 4 thorough), MS-C and small MS-D files, the long-name files (127..1025-byte names) and the character-class family; two files with a 16 MiB / 32 MiB string section; faults = every strict prefix length 0..len-1 (crash points; for files above 100 kB the last 4096 prefixes, 8 bytes around every section boundary and every 65536th length) and every single-field edit of the header (5 magic values, 8 versions incl. values whose low or high half is 1, 6 values per count, every single-bit flip of all six fields) plus 4 two-edit precedence scripts; oracle = rejection with the error kind the documented layout implies (computed by the independent decoder), or acceptance with answers identical to the full file. evaluations = faulted buffers parsed; distinct = distinct (fault class, error kind) pairs".into(),
         bounds: json!({"base_files": nb, "prefixes": "all", "header_edits_per_file": "5 magic + 3 version + up to 24 count values + 4 precedence scripts"}),
         assumptions: vec!["prefixes shorter than the 24-byte header: any error kind is accepted (the statement names none)".into(), "buffers handed to the parser are 8-aligned (the parser pads relative to the memory address)".into()],
         trusted_base: vec!["rustc/std".into(), "layout arithmetic of pgmc/src/dec.rs".into()],
@@ -330,7 +347,21 @@ pub enum Dev {
     Swap(usize, usize),
     /// copy the record at offset over the following record
     Dup(usize, usize),
+    /// overwrite bytes at offset with one of the LEB128 length-prefix patterns (index into LEB_PATTERNS)
+    Leb(usize, usize),
 }
+
+/// length prefixes a decoder may mishandle: 2^64-1, 2^63, 2^32, 2^31, 2^28 (5 bytes), an over-long run of 0x80, 2^21
+pub const LEB_PATTERNS: [&[u8]; 8] = [
+    &[0xff, 0xff, 0xff, 0xff, 0xff, 0xff, 0xff, 0xff, 0xff, 0x01],
+    &[0x80, 0x80, 0x80, 0x80, 0x80, 0x80, 0x80, 0x80, 0x80, 0x01],
+    &[0x80, 0x80, 0x80, 0x80, 0x10],
+    &[0x80, 0x80, 0x80, 0x80, 0x08],
+    &[0x80, 0x80, 0x80, 0x80, 0x01],
+    &[0x80, 0x80, 0x80, 0x80, 0x80, 0x80, 0x80, 0x80, 0x80, 0x80, 0x80, 0x00],
+    &[0x80, 0x80, 0x80, 0x01],
+    &[0xff, 0xff, 0xff, 0xff, 0x0f],
+];
 
 impl Dev {
     fn apply(&self, b: &mut [u8]) {
@@ -348,6 +379,11 @@ impl Dev {
                     b[off + len + k] = b[off + k];
                 }
             }
+            Dev::Leb(off, pi) => {
+                let p = LEB_PATTERNS[pi];
+                let n = p.len().min(b.len().saturating_sub(off));
+                b[off..off + n].copy_from_slice(&p[..n]);
+            }
         }
     }
     fn to_json(&self) -> Value {
@@ -357,6 +393,7 @@ impl Dev {
             Dev::Byte(o, v) => json!({"byte_at": o, "value": v}),
             Dev::Swap(o, l) => json!({"swap_records_at": o, "len": l}),
             Dev::Dup(o, l) => json!({"dup_record_at": o, "len": l}),
+            Dev::Leb(o, p) => json!({"leb_pattern_at": o, "pattern": p}),
         }
     }
     fn from_json(v: &Value) -> Dev {
@@ -367,6 +404,8 @@ impl Dev {
             Dev::Bit(g("flip_bit"))
         } else if v.get("byte_at").is_some() {
             Dev::Byte(g("byte_at"), g("value") as u8)
+        } else if v.get("leb_pattern_at").is_some() {
+            Dev::Leb(g("leb_pattern_at"), g("pattern"))
         } else if v.get("swap_records_at").is_some() {
             Dev::Swap(g("swap_records_at"), g("len"))
         } else {
@@ -437,6 +476,20 @@ fn other_devs(full: &[u8]) -> Vec<Dev> {
             if full[o] != b {
                 v.push(Dev::Byte(o, b));
             }
+        }
+    }
+    // LEB128 length-prefix patterns written over the start of every string and at the last 12 offsets of the section
+    let starts = string_starts(d.strings).unwrap_or_default();
+    let sa = d.layout.strings_at as usize;
+    let mut spots: Vec<usize> = starts.iter().map(|s| sa + *s as usize).collect();
+    for o in full.len().saturating_sub(12)..full.len() {
+        if o >= sa && !spots.contains(&o) {
+            spots.push(o);
+        }
+    }
+    for o in spots {
+        for pi in 0..LEB_PATTERNS.len() {
+            v.push(Dev::Leb(o, pi));
         }
     }
     for i in 0..(h.num_classes as usize).saturating_sub(1) {
@@ -660,7 +713,7 @@ pub fn run_c12(tier: Tier) -> i32 {
         prop: "C12",
         tier,
         level: "fault_enumeration",
-        rule: "base files = caches of the curated mappings and of every MS-B history of depth <= 2; deviation bound 1 on all base files: every 32-bit field (header, every class / member / by-params record) set to each boundary value (0,1,2,counts-1,counts,2^31,2^32-2,2^32-1, a valid string offset, an offset one byte into a string; for the base file with long non-ASCII names: every offset of the string section), every single-bit flip of the whole file, every string-section byte set to 00/7f/80/ff, every adjacent record swap and duplication; deviation bound 2 (all pairs of field edits) on 3 (quick) / 10 (thorough) files. Every buffer the parser accepts is queried with the full universe incl. lines 0, 2^32, 2^64-1. evaluations = corrupted buffers; distinct = distinct answer vectors of accepted buffers".into(),
+        rule: "base files = caches of the curated mappings and of every MS-B history of depth <= 2; deviation bound 1 on all base files: every 32-bit field (header, every class / member / by-params record) set to each boundary value (0,1,2,counts-1,counts,2^31,2^32-2,2^32-1, a valid string offset, an offset one byte into a string; for the base file with long non-ASCII names: every offset of the string section), every single-bit flip of the whole file, every string-section byte set to 00/7f/80/ff, 8 LEB128 length-prefix patterns (2^64-1, 2^63, 2^32, 2^31, 2^28, over-long, 2^21, 2^32-1) over the start of every string and the last 12 offsets, every adjacent record swap and duplication; deviation bound 2 (all pairs of field edits) on 3 (quick) / 10 (thorough) files. Every buffer the parser accepts is queried with the full universe incl. lines 0, 2^32, 2^64-1. evaluations = corrupted buffers; distinct = distinct answer vectors of accepted buffers".into(),
         bounds: json!({"base_files": nb, "deviation_bound_all_files": 1, "deviation_bound_2_files": two_budget}),
         assumptions: vec!["Debug/Display helpers of cache/debug.rs and ProguardCache::test() are outside the property's list of queries".into(), "overflow checks are compiled in (release profile with overflow-checks = true, debug-assertions = true)".into()],
         trusted_base: vec!["rustc/std".into(), "pgmc/src/dec.rs for locating fields".into()],
